@@ -109,7 +109,7 @@ def selector_texts(sv, tier='thorough'):
             base += [':has(*)', ':has(> input)', ':has(+ *)', ':has(~ :checked)']
         else:
             base += [f'{n}(*)', f'{n}(input, :checked)']
-    base += [':nth-child(2n+1)', ':nth-child(-n+2 of input)', ':nth-last-child(1)', ':nth-of-type(2)', ':nth-last-of-type(odd)',
+    base += [':nth-child(0n+5)', ':nth-last-of-type(-0n+0)', ':nth-child(2n+1)', ':nth-child(-n+2 of input)', ':nth-last-child(1)', ':nth-of-type(2)', ':nth-last-of-type(odd)',
              ':lang(en)', ':lang("*-x")', ':lang("")', ':lang("*")', ':dir(ltr)', ':dir(rtl)',
              '[type=date]', '[min]', '[max=""]', '[value^="2"]', '[dir=auto i]', '[lang|=en]', '[name=n]', '.a', '#x', '[rel~=nofollow]']
     out = []
@@ -165,6 +165,9 @@ def shards(tier, seed):
         [('odd', tier, 0, 1), ('nontag', tier, 0, 1), ('huge', tier, 0, 1), ('degenerate', tier, 0, 1)]
 
 
+HUNG = set()
+
+
 def shard_weight(desc):
     return {'odd-all': 3, 'main': 2}.get(desc[0], 1)
 
@@ -173,8 +176,12 @@ def call_all(sv, c, text, target, els, res, full=True):
     """Every entry point on one target; returns list of (entry, exception-or-type-problem)."""
     import bs4
     bad = []
+    if text in HUNG:
+        return bad          # already reported as hanging in this worker; asking again only burns the watchdog
 
     def run(entry, fn, typecheck):
+        if text in HUNG:
+            return
         try:
             with shard.deadline(5):
                 r = fn()
@@ -185,6 +192,7 @@ def call_all(sv, c, text, target, els, res, full=True):
                 bad.append((entry, 'returned ' + type(r).__name__))
         except shard.CaseTimeout:
             bad.append((entry, 'timeout'))
+            HUNG.add(text)
         except Exception as e:
             bad.append((entry, type(e).__name__ + ': ' + str(e)[:100]))
     is_list = lambda r: isinstance(r, list) and all(isinstance(x, bs4.Tag) for x in r)
@@ -260,12 +268,16 @@ def run_main(sv, tier, i, n, res):
     batches = [focus[k:k + B] for k in range(0, len(focus), B)]
     jobs = [(ctx, bi) for ctx in CONTEXTS for bi in range(len(batches))
             if tier != 'quick' or ctx in ('form', 'parentless', 'iframe', 'xhtml') or bi % 3 == 0]
+    hung = set()
     for ji in range(i, len(jobs), n):
         context, bi = jobs[ji]
         batch = batches[bi]
         forest, xml, parentless = wrap(context, batch)
         tl = list(targets_of(forest, xml, parentless))
         for ti, text in enumerate(texts):
+            if text in hung:
+                res.count('skipped_after_timeout', 1)
+                continue
             if ti % 64 == 0:
                 sv.purge()
             try:
@@ -285,6 +297,11 @@ def run_main(sv, tier, i, n, res):
                 if bad:
                     nbad += 1
                     res.outcome('raised')
+                    if bad[0][1] == 'timeout':
+                        hung.add(text)
+                        res.fail({'layer': 'main', 'context': context, 'element': batch[0], 'selector': text, 'entry': bad[0][0], 'around': True},
+                                 {'kind': 'raise', 'exc': 'timeout', 'values': ''}, f'[{context}] {bad[0][0]}({text!r}) did not return within the watchdog')
+                        break
                     if nbad == 1:
                         found = locate(sv, c, text, context, batch, bad[0][0], res)
                         if not found:
